@@ -234,6 +234,8 @@ func (ex *Exec) callMerged(fn *ssa.Function, args []Value, env []Value, site ssa
 		ex.ivalMemo, ex.nzMemo = nil, nil
 	}
 	npaths := 0
+	impure := false
+	markDepth := len(ex.mergeMarks)
 	for len(work) > 0 {
 		p := work[len(work)-1]
 		work = work[:len(work)-1]
@@ -250,6 +252,10 @@ func (ex *Exec) callMerged(fn *ssa.Function, args []Value, env []Value, site ssa
 		func() {
 			defer func() {
 				if r := recover(); r != nil {
+					if _, imp := r.(mergeImpure); imp && len(ex.mergeMarks) == 1+markDepth {
+						impure = true
+						return
+					}
 					pe, ok := r.(pathEnd)
 					if !ok || pe.kind == endAbort || pe.kind == endExit {
 						ex.mergeMarks = ex.mergeMarks[:len(ex.mergeMarks)-1]
@@ -262,6 +268,17 @@ func (ex *Exec) callMerged(fn *ssa.Function, args []Value, env []Value, site ssa
 			res = ex.callFunc(fn, args, env, site)
 		}()
 		ex.mergeMarks = ex.mergeMarks[:len(ex.mergeMarks)-1]
+		if impure {
+			// not a pure function after all: run it as an ordinary (forking) call from the saved state
+			restore()
+			ex.pcSet = savedSet
+			ex.pinned = savedPinned
+			ex.facts, ex.subst, ex.intFacts = savedFacts, savedSubst, savedInt
+			ex.ivalMemo, ex.nzMemo = nil, nil
+			ex.tr = savedTr
+			ex.eng.noteImpure(fn.String())
+			return ex.callFunc(fn, args, env, site)
+		}
 		work = append(work, ex.tr.forks...)
 		if ex.tr.assumed {
 			assumed = true
